@@ -77,7 +77,7 @@ func heededBefore(c *core.Ctx, fn *ssa.Function, target *types.Func, fw core.Fai
 		ok, why := false, "no call of the guard in the function"
 		for _, g := range guards {
 			if ok2, w := core.HeededBefore(g, fw, a); ok2 {
-				ok = true
+				ok, why = true, ""
 				break
 			} else {
 				why = w
